@@ -35,6 +35,8 @@ type knownFinding struct {
 
 var reKF = regexp.MustCompile(`^(finding|fixed):\s+property=(\S+)\s+(?:obligation=(\S+)\s+)?(.*)$`)
 
+var closureOrdRe = regexp.MustCompile(`\$[0-9]+`)
+
 func loadKnownFindings() []knownFinding {
 	data, err := os.ReadFile(filepath.Join(verifRoot, "known_findings.txt"))
 	if err != nil {
@@ -171,10 +173,26 @@ func cmdCheck(args []string) {
 		byName[o.Name] = o
 	}
 	kfs := loadKnownFindings()
+	// Closure ordinals ($13) shift when an unrelated closure is added to or removed from the same function. A name
+	// that is no longer generated is matched, modulo the ordinals, against a name that is: for known findings only
+	// when the recorded name itself is gone from this run, so two obligations that exist side by side stay distinct.
+	normByName := map[string]bool{}
+	for _, o := range res.all {
+		normByName[closureOrdRe.ReplaceAllString(o.Name, "$$")] = true
+	}
 	isKnown := func(name string) *knownFinding {
 		for i := range kfs {
 			if kfs[i].Kind == "finding" && kfs[i].Property == id && kfs[i].Oblig == name {
 				return &kfs[i]
+			}
+		}
+		if closureOrdRe.MatchString(name) {
+			n := closureOrdRe.ReplaceAllString(name, "$$")
+			for i := range kfs {
+				if kfs[i].Kind == "finding" && kfs[i].Property == id && byName[kfs[i].Oblig] == nil &&
+					closureOrdRe.ReplaceAllString(kfs[i].Oblig, "$$") == n {
+					return &kfs[i]
+				}
 			}
 		}
 		return nil
@@ -222,6 +240,9 @@ func cmdCheck(args []string) {
 			}
 			if _, ok := byName[b]; !ok {
 				if kf := isKnown(b); kf != nil {
+					continue
+				}
+				if closureOrdRe.MatchString(b) && normByName[closureOrdRe.ReplaceAllString(b, "$$")] {
 					continue
 				}
 				viols = append(viols, violation{name: b, reason: "obligation on the shipped list was not generated (contract target missing or obligation count shrank)"})
